@@ -730,7 +730,10 @@ Again:
 
 	case recordTypeHandshake:
 		// TODO(rsc): Should at least pick off connection close.
-		if typ != want && !(c.isClient && c.config.Renegotiation != RenegotiateNever) {
+		// A client that allows renegotiation accepts a handshake record
+		// (HelloRequest) where application data is expected, but never in
+		// place of the ChangeCipherSpec that must precede Finished.
+		if typ != want && (want == recordTypeChangeCipherSpec || !(c.isClient && c.config.Renegotiation != RenegotiateNever)) {
 			return c.in.setErrorLocked(c.sendAlert(alertNoRenegotiation))
 		}
 		c.hand.Write(data)
